@@ -104,6 +104,11 @@ func ruleERR1(c *Ctx) []Ob {
 						}
 					}
 				}
+				full := calleeFullName(ci)
+				if strings.HasPrefix(full, "(*bytes.Buffer).") || strings.HasPrefix(full, "(*strings.Builder).") {
+					o.add(INFO, key, pos, "in-memory writer: documented to always return a nil error")
+					return
+				}
 				o.add(VIOLATED, key, pos, "the error returned by %s is dropped: a failure here is reported as success", callee)
 			}
 		})
